@@ -113,12 +113,22 @@ def refBinop (op : BOp) (l r : Value F) : Outcome (Value F) :=
     | _, _ => .err)
 end
 
-/-- history of the stateful functions of one expression instance (one group): how often `count` was
-called, and the arguments `sigma` and `spread` were called with, oldest first. -/
-structure Hist (F : Type) where
+/-- history of one instance each of the stateful functions: how often `count` was called, and the arguments `sigma`
+and `spread` were called with, oldest first. -/
+structure HistBase (F : Type) where
   counts : Nat := 0
   sigmas : List F := []
   spreads : List F := []
+
+/-- history of ONE GROUP: of the stateful functions of the expression itself and, separately ("an independent state
+for this expression"), of those inside each lambda node nested in it — every group has its own. -/
+structure Hist (F : Type) extends HistBase F where
+  lams : Nat → HistBase F := fun _ => {}
+
+/-- the history the body of lambda node `i` sees, and the way back (as `FnState.enter/leave`, but per group). -/
+def Hist.enter {F} (h : Hist F) (i : Nat) : Hist F := { toHistBase := h.lams i, lams := h.lams }
+def Hist.leave {F} (h inner : Hist F) (i : Nat) : Hist F :=
+  { toHistBase := h.toHistBase, lams := fun j => if j = i then inner.toHistBase else inner.lams j }
 
 section
 variable {F : Type} (ctx : Ctx F)
@@ -205,6 +215,11 @@ def typeRef : Expr F → Option Ty
     (typeRef a).bind (fun ta => (typeRef b).bind (fun tb => (typeRef c).bind (fun tc => (typeRef d).bind (fun td =>
       sigType ctx fn [ta, tb, tc, td]))))
   | .callMany _ => none
+  | .lam _ e =>
+    -- a lambda used as a value is its body; it cannot yield a time (`EvalLambdaNode.EvalTime` always refuses)
+    match typeRef e with
+    | some .time => none
+    | t => t
 
 /-- big-step evaluation against one point. -/
 def valRef : Expr F → Hist F → Outcome (Value F) × Hist F
@@ -269,6 +284,10 @@ def valRef : Expr F → Hist F → Outcome (Value F) × Hist F
        | x => x)
     | x => x
   | .callMany _, h => (.err, h)
+  | .lam i e, h =>
+    -- the body, with the stateful functions of THIS lambda (of this group)
+    match valRef e (h.enter i) with
+    | (r, inner) => (r, h.leave inner i)
 
 /-- does the expression call a stateful function? -/
 def stateful : Expr F → Bool
@@ -281,6 +300,19 @@ def stateful : Expr F → Bool
   | .call4 fn a b c d =>
     fn == "count" || fn == "sigma" || fn == "spread" || stateful a || stateful b || stateful c || stateful d
   | .callMany fn => fn == "count" || fn == "sigma" || fn == "spread"
+  | .lam _ e => stateful e
+  | _ => false
+
+/-- does a lambda node nested in the expression call a stateful function in its body? (the expressions the recorded
+finding `nested-lambda-state-shared` is about) -/
+def statefulLam : Expr F → Bool
+  | .un _ e => statefulLam e
+  | .bin _ l r => statefulLam l || statefulLam r
+  | .call1 _ a => statefulLam a
+  | .call2 _ a b => statefulLam a || statefulLam b
+  | .call3 _ a b c => statefulLam a || statefulLam b || statefulLam c
+  | .call4 _ a b c d => statefulLam a || statefulLam b || statefulLam c || statefulLam d
+  | .lam _ e => stateful e
   | _ => false
 
 /-- What an evaluation of one point may answer.
